@@ -1,5 +1,5 @@
 import Proofs.OalLex
-import PyxModel.Oal.LexGen
+import PyxModel.Oal.LexClass
 
 /-!
   Layout irrelevance of the OAL lexer model (for property C07, re-exported there):
@@ -23,9 +23,8 @@ import PyxModel.Oal.LexGen
   Side conditions that are lexical facts of this language, not proof artefacts: the bare word `end` is not an
   identifier lexeme here (`end` + white space + `if|for|while` is ONE token); a `/` token must not be directly
   followed by a comment (`//`, `/*` start comments); separators between tokens are NON-EMPTY.
-  NOT proved: the `tight` variant (no separator where the next character cannot extend the token, `a+b`,
-  `f(x)`); it needs the per-class "what may follow" analysis generalised from layout characters to arbitrary
-  non-extending characters and is covered by the correspondence runs only.
+  The `tight` variant (no separator where the pairwise test `tightOk` allows it: `a+b`, `f(x)`, `x.y[1]`) is
+  proved in Proofs/OalTight.lean.
 -/
 namespace Pyx.OalLex
 
@@ -140,41 +139,6 @@ theorem firstMatch_filter (p : Rule → Bool) (rules : List Rule) (cs : List Cha
     | true =>
       rw [List.filter_cons_of_pos hp]
       simp only [firstMatch, ih']
-
-/-- coarse class of a character, fine enough to tell which rules can start with it -/
-inductive Cls where
-  | E | L | D | U
-  | other (c : Char)
-  deriving DecidableEq
-
-def charClass (c : Char) : Cls :=
-  if lowerAscii c == 'e' then .E
-  else if isIdStart c then .L
-  else if 48 ≤ c.toNat && c.toNat ≤ 57 then .D
-  else if isDigit c then .U
-  else .other c
-
-def idStart : RegexId → Cls → Bool
-  | .comment, k => k == .other '/'
-  | .slString, k => k == .other '/'
-  | .ticked, k => k == .other '\''
-  | .string, k => k == .other '"'
-  | .endFor, k => k == .E
-  | .endIf, k => k == .E
-  | .endWhile, k => k == .E
-  | .namespace_, k => k == .E || k == .L || k == .D
-  | .id, k => k == .E || k == .L
-  | .fraction, k => k == .D || k == .U || k == .other '.'
-  | .number, k => k == .D || k == .U
-  | .newline, k => k == .other '\n'
-  | .unknown, _ => false
-
-/-- necessary condition on the class of the first character for the rule to match -/
-def startOk (r : Rule) (k : Cls) : Bool :=
-  match r.lit with
-  | some (h :: _) => charClass h == k
-  | some [] => false
-  | none => idStart (regexId r.regex) k
 
 theorem run_seq_ch_none (f : Char → Bool) (b : Pat) (x : Char) (cs : List Char) (h : f x = false) :
     Pat.run (.seq (.ch f) b) (x :: cs) = none := by
@@ -425,11 +389,6 @@ theorem rejects_fraction (c : Char) (h : LayoutStart c) : Rejects c patFraction 
       ?_, trivial⟩ <;> decide)
 
 /-! ## the rules by position in the generated table -/
-
-instance : Inhabited Rule := ⟨⟨[], [], none, false, false, false, false, false⟩⟩
-
-/-- the `i`-th rule of the generated table (PLY matching order) -/
-def R (i : Nat) : Rule := Gen.OalLex.rules.getD i default
 
 theorem cands_E : cands .E = [R 4, R 5, R 6, R 7, R 8] := by decide
 theorem cands_L : cands .L = [R 7, R 8] := by decide
@@ -920,10 +879,6 @@ def litGood (i : Nat) : Bool :=
     (R i).returnsTok && decide ((R i).name ≠ idName) && !Gen.OalLex.ignore.contains x
   | _ => false
 
-/-- indexes of the fixed-string token rules of the generated table, all but DIV (`/` can start a comment) -/
-def litIndexes : List Nat := [11, 12, 13, 14, 15, 16, 17, 18, 19, 20, 21, 22, 23, 24, 25, 26, 27, 28, 29, 30, 31, 32,
-  34, 35, 36]
-
 theorem litIndexes_good : litIndexes.all litGood = true := by decide
 
 theorem step_lit (i : Nat) (hi : litGood i = true) (l : List Char) (hl : (R i).lit = some l)
@@ -967,10 +922,6 @@ theorem step_div (t : List Char) (ht : TailOk t) (hns : ∀ rest, t ≠ '/' :: r
 
 
 /-! ## well-formed lexemes and their kinds -/
-
-/-- the token kind `t_ID` gives a word: the upper-cased word when that is a keyword, `ID` otherwise -/
-def wordKind (s : List Char) : List Char :=
-  if Gen.OalLex.keywords.contains (s.map upperAscii) then s.map upperAscii else idName
 
 /-- `WellLexeme k s`: `s` is a complete lexeme of token kind `k`.
     Rule positions in the generated table: 2 TICKED_PHRASE, 3 STRING, 4 END_FOR, 5 END_IF, 6 END_WHILE,
